@@ -2,8 +2,8 @@
    (blockmanager.go: handleHeadersMsg, handleInvMsg, handleNewPeerMsg,
    handleDonePeerMsg, startSync, BlockHeadersSynced, checkHeaderSanity with
    btcd's CheckBlockHeaderContext / CheckBlockHeaderSanity transliterated,
-   rollBackToHeight, writeCFHeadersMsg, NotificationsSinceHeight).
-   No proofs here.
+   rollBackToHeight, writeCFHeadersMsg, NotificationsSinceHeight) and of a
+   restart (newBlockManager over the existing stores).  No proofs here.
 
    Headers are records of the fields the rules look at; [hid]/[hprev] are hash
    tokens, [hnum] the 256-bit value of the header's own hash.  The two header
@@ -503,6 +503,27 @@ Definition notifs_since (h : Z) (s : state) : option (list (Z * Z) * Z) :=
     if forallb (fun o => match o with Some _ => true | None => false end) items
     then Some (omap id items, best) else None.
 
+(* ---------- restart ---------- *)
+(* The process is stopped and started again: a NEW block manager is built by
+   newBlockManager over the SAME two header stores (neutrino.go
+   NewChainService; ResetHeaderState does the same re-reading).  Nothing of
+   the old in-memory state survives: the header window holds the stored tip
+   only (headerList.ResetHeaderState), nextCheckpoint is recomputed from the
+   tip height, filterHeaderTip is read from the filter header store, there is
+   no sync peer, no sync candidate and no peer.  No notification is emitted.
+   (newBlockManager fails if a store has no tip: not reachable, the stores
+   always hold their genesis entries.) *)
+Definition restart (P : params) (s : state) : state :=
+  match chain_tip s with
+  | None => s
+  | Some t =>
+    {| chain := chain s; fchain := fchain s;
+       hl := [{| nheight := tip_height s; nhdr := t |}];
+       syncPeer := None; cands := []; nextCp := find_next_cp P (tip_height s);
+       peers := []; ftipVar := zlen (fchain s) - 1;
+       events := events s; trap := trap s |}
+  end.
+
 (* ---------- operations ---------- *)
 Inductive op :=
 | OHeaders (p : Z) (now : Z) (hs : list header)
@@ -510,7 +531,8 @@ Inductive op :=
 | ONewPeer (p : Z) (start last : Z) (full : bool)
 | ODonePeer (p : Z)
 | OWriteCF (prev : Z) (fs : list Z) (stop : Z)
-| ORollback (h : Z).
+| ORollback (h : Z)
+| ORestart.
 
 Definition step (P : params) (s : state) (o : op) : state :=
   match o with
@@ -521,6 +543,7 @@ Definition step (P : params) (s : state) (o : op) : state :=
   | ODonePeer p => done_peer p s
   | OWriteCF prev fs stop => fst (write_cf prev fs stop s)
   | ORollback h => roll_back_to h s
+  | ORestart => restart P s
   end.
 
 Definition init_state (P : params) (gfh : Z) : state :=
